@@ -21,25 +21,34 @@ func c12Stream(rng *rand.Rand, flavour int) *Stream {
 	switch flavour {
 	case 0: // activity file: records / events with compressed headers
 		s.FileId(rng.Intn(16), arch, 4)
-		s.Def(0, arch, 20, []FieldDef{{253, 4, 0x86}, {3, 1, 2}}, nil) // timestamp, heart_rate
-		s.Def(1, arch, 20, []FieldDef{{3, 1, 2}}, nil)                 // heart_rate only
-		switch rng.Intn(3) {
-		case 0:
-			s.Def(2, arch, 21, []FieldDef{{0, 1, 0}, {1, 1, 0}}, nil) // event: timestamp field not in the definition
-		case 1:
-			s.Def(2, arch, 49, []FieldDef{{0, 1, 2}, {1, 1, 2}}, nil) // file_creator: the message has no timestamp field
-		default:
-			s.Def(2, arch, 0xFF02, []FieldDef{{0, 1, 2}, {1, 1, 2}}, nil) // unknown message
+		third := rng.Intn(3)
+		defineAll := func() {
+			s.Def(0, arch, 20, []FieldDef{{253, 4, 0x86}, {3, 1, 2}}, nil) // timestamp, heart_rate
+			s.Def(1, arch, 20, []FieldDef{{3, 1, 2}}, nil)                 // heart_rate only
+			switch third {
+			case 0:
+				s.Def(2, arch, 21, []FieldDef{{0, 1, 0}, {1, 1, 0}}, nil) // event: timestamp field not in the definition
+			case 1:
+				s.Def(2, arch, 49, []FieldDef{{0, 1, 2}, {1, 1, 2}}, nil) // file_creator: the message has no timestamp field
+			default:
+				s.Def(2, arch, 0xFF02, []FieldDef{{0, 1, 2}, {1, 1, 2}}, nil) // unknown message
+			}
+			s.Def(3, arch, 21, []FieldDef{{253, 4, 0x86}, {0, 1, 0}}, nil) // event with explicit timestamp
+			s.Def(4, arch, 0xFF01, []FieldDef{{253, 4, 0x86}}, nil)        // unknown message with a timestamp field
+			s.Def(5, arch, 49, []FieldDef{{0, 2, 0x84}}, nil)              // file_creator: no timestamp field
 		}
-		s.Def(3, arch, 21, []FieldDef{{253, 4, 0x86}, {0, 1, 0}}, nil) // event with explicit timestamp
-		s.Def(4, arch, 0xFF01, []FieldDef{{253, 4, 0x86}}, nil)        // unknown message with a timestamp field
-		s.Def(5, arch, 49, []FieldDef{{0, 2, 0x84}}, nil)              // file_creator: no timestamp field
+		defineAll()
 		n := 20 + rng.Intn(60)
 		if rng.Intn(4) == 0 {
 			n = 300
 		}
 		off := rng.Intn(32)
 		for i := 0; i < n; i++ {
+			if i > 0 && i%17 == 0 && rng.Intn(2) == 0 {
+				// the device switches byte order mid-file and sends the same definitions again
+				arch ^= 1
+				defineAll()
+			}
 			switch x := rng.Intn(20); {
 			case x < 2:
 				now += uint32(rng.Intn(100))
